@@ -177,6 +177,7 @@ def semi_a2orbital_motion(semi_major_axis: 'FloatArray', host_mass: float, targe
     if target_mass < 0.:
         raise BadValueError('Target mass must be greater than or equal to zero.')
 
-    orbital_motion = np.sqrt(G * (host_mass + target_mass) / semi_major_axis**3)
+    # The cube is taken of a float: an integer semi-major axis would be cubed in (wrapping) 64-bit integer arithmetic.
+    orbital_motion = np.sqrt(G * (host_mass + target_mass) / (1. * semi_major_axis)**3)
 
     return orbital_motion
